@@ -509,8 +509,15 @@ func Iterate(val Value, it Iteratee) (int, error) {
 		}
 		return ln, nil
 	case reflect.Map:
-		keys := r.MapKeys()
+		// The entries are collected first: the iteratee may change the map, and
+		// a NaN key cannot be looked up again once it has been read.
 		ln := r.Len()
+		keys := make([]reflect.Value, 0, ln)
+		vals := make([]reflect.Value, 0, ln)
+		for iter := r.MapRange(); iter.Next(); {
+			keys = append(keys, iter.Key())
+			vals = append(vals, iter.Value())
+		}
 		l := Loop{
 			ln == 1,
 			1,
@@ -521,8 +528,7 @@ func Iterate(val Value, it Iteratee) (int, error) {
 			ln,
 		}
 		for i, k := range keys {
-			v := r.MapIndex(k)
-			brk, err := it(k.Interface(), v.Interface(), l)
+			brk, err := it(k.Interface(), vals[i].Interface(), l)
 			if brk || err != nil {
 				return i + 1, err
 			}
